@@ -1667,13 +1667,11 @@ func CharCode(vm *VM, char, code Term, k Cont, env *Env) *Promise {
 		case Variable:
 			return Error(InstantiationError(env))
 		case Integer:
-			r := rune(cd)
-
-			if !utf8.ValidRune(r) {
+			if cd < 0 || cd > unicode.MaxRune || !utf8.ValidRune(rune(cd)) { // rune(cd) alone keeps the low 32 bits only.
 				return Error(representationError(flagCharacterCode, env))
 			}
 
-			return Unify(vm, ch, Atom(r), k, env)
+			return Unify(vm, ch, Atom(rune(cd)), k, env)
 		default:
 			return Error(typeError(validTypeInteger, code, env))
 		}
@@ -2427,7 +2425,7 @@ func NumberCodes(vm *VM, num, codes Term, k Cont, env *Env) *Promise {
 		case Variable:
 			return numberCodesWrite(vm, num, codes, k, env)
 		case Integer:
-			if !utf8.ValidRune(rune(e)) {
+			if e < 0 || e > unicode.MaxRune || !utf8.ValidRune(rune(e)) {
 				return Error(representationError(flagCharacterCode, env))
 			}
 			_, _ = sb.WriteRune(rune(e))
@@ -2477,7 +2475,7 @@ func numberCodesWrite(vm *VM, num, codes Term, k Cont, env *Env) *Promise {
 		case Variable:
 			break
 		case Integer:
-			if !utf8.ValidRune(rune(e)) {
+			if e < 0 || e > unicode.MaxRune || !utf8.ValidRune(rune(e)) {
 				return Error(representationError(flagCharacterCode, env))
 			}
 		default:
